@@ -5,7 +5,7 @@
 
 The second kind of tie between /verif and the library: for the branch-heavy pure functions of cellpylib the
 Gallina definition `src_<name>` is REGENERATED FROM THE PYTHON SOURCE of $CELLPYLIB_REPO (or /repo) on every run
-into coq/gen/GenFuns.v, and coq/GenProps/GenFunsEquiv<Cxx>.v proves it equal, for all inputs, to the hand-written
+into coq/gen/GenFuns_<Cxx>.v, and coq/GenProps/GenFunsEquiv<Cxx>.v proves it equal, for all inputs, to the hand-written
 model the property theorems speak about.  A change of the source that alters behaviour then breaks a proof
 obligation of the property (theorem Cxx_source_tie), not only the sampled correspondence.
 
@@ -58,10 +58,60 @@ THE SUBSET (values are Z; None is option Z exactly where the source uses it)
   Operations that can raise (nks_rule, vec_read, py_get) are sequenced with `bind` in source order; they are
   rejected inside short-circuit positions (right operands of and/or, branches of a conditional expression).
 
+EXTENSIONS (second round; each an explicit rule, everything else still raises TranslationError)
+
+  loops        `for x in range(a[, b[, s]])` (s a positive literal), `for i, x in enumerate(seq)`,
+               `for x in <list-valued expression>` with a body without return / raise / while
+                   ->  let acc := fold_left (fun acc x => body) <list> acc     (acc: the locals assigned in the body that
+                   exist before the loop, a tuple pattern for several; locals FIRST assigned in the body are temporaries
+                   of one iteration: reading one before its assignment, or after the loop, fails as an unknown name)
+                   over  src_range a b = [a; a+1; ..; b-1],  src_range_step a b s,
+                   src_enumerate l = combine [0; 1; ..] l  (loop target `i, x` is the lambda pattern '(i, x))
+               a loop whose body contains `break` / `continue` or an operation that can raise
+                   ->  bind (src_for (fun acc x => body) <list> acc) (fun acc => rest)
+                   with body : res (Next acc | Break acc); `break` = Ok (Break acc), end of body / `continue` =
+                   Ok (Next acc); src_for stops at the first Break or exception
+               `name.append(e)` on a local bound to a list literal  ->  let name := name ++ [e]
+               `assert c`  ->  if c then rest else Raise AssertionError
+               `if x:` on an int x is  negb (x =? 0)
+               an `if` whose branches FIRST assign a local is translated with its continuation in both branches
+  expressions  `[e for x in seq]` -> map, `[e for x in seq if c]` -> map over filter (seq: range / enumerate / list)
+               slices with bounds syntactically known to be >= 0 (literals, len(..), indices of range / enumerate,
+               sums, `// k`): l[:k] = firstn, l[k:] = skipn, l[a:b] = firstn (b - a) (skipn a l); l[::-1] = rev;
+               l[:-1] = removelast; `+` on Python lists (literals, comprehensions, slices, locals bound to one) = ++
+               `a << b`, `a ** b` with b syntactically >= 0 -> Z.shiftl, Z.pow; abs -> Z.abs; max / min of two
+               `a % b`, `a // b` with a divisor that is not a literal -> bind (src_mod a b) / (src_div a b)
+                   (ZeroDivisionError modelled as an exception); int(e) on an integer value is e
+               l[i] on a list of ints / a binary string / a list of cells -> bind (py_get l i) (negative index and
+                   IndexError as Python); len(e) on any list-valued expression
+               `f(args)` where f is a translated module-level function of the same file -> src_f args (bind if it
+                   can raise)
+               C07 idioms: list(map(int, bin(num)[2:])) -> the model's bin_digits num;  np.pad(l, (k, 0), 'constant')
+                   -> src_pad_left k l (ValueError for k < 0);  a.dot(b) -> the model's dot;  `scheme == 'nks'` on
+                   the scheme tag;  `if powers_of_two is None` / `if isinstance(rule, (list, np.ndarray))` ->
+                   match on the tagged argument (None | Some l;  RBits l | RInt n), the name re-bound in each branch
+               C18 idioms: a binary string is list bool; string[i] -> py_get; int(ch) the bit; `^` on two such ints
+                   -> xorb; ''.join([str(x) for x in bits]) -> the list of bits itself
+               `len(n.shape) == k` is decided at translation time from the declared type of n (the dead branch is
+                   not translated); n[n.shape[0]//2][n.shape[1]//2] -> the centre of a 2D array (nth, like
+                   n[len(n)//2])
+  objects      a class whose methods READ AND WRITE attributes (GROUPS): the object is a generated record
+               src_<g>_state of the declared fields (+ the number of shuffles drawn, + the state of the wrapped
+               rule); `self._x` -> src_<g>_get_x st; `self._x = e`, `self._x += e` -> let st := src_<g>_set_x st ..;
+               a method that only reads is  st -> args -> result, one without a return value that writes is
+               st -> args -> st, one that writes and returns is  st -> args -> st * result  (in `res` if it can raise);
+               `self._m(args)` of a read-only method is an expression, of a writing method a statement;
+               `self._apply_rule(n, c, t)` (the wrapped rule, a state machine St -> .. -> St * Z) threads its state
+               through the record; `self._shuffle_update_order()` -- whose body must be
+               np.random.shuffle(self._update_order) -- is the ORACLE HOOK  st.order := shuffle (st.shuffles) st.order;
+               every other writer of an attribute must be on the declared constructor side.
+
 The parameter types of each target (which name is the 3x3 block, which the cell index, ...) are declared in TARGETS
 below: they are assumptions about how the library calls the function, not read from the source.
 
-`main()` writes coq/gen/GenFuns.v ONLY IF its content changed, plus coq/gen/GenFuns.status.json.
+`main()` writes coq/gen/GenFuns_<Cxx>.v, one file per property, each ONLY IF its content changed (the text holds no
+path, hash or line number: an unchanged translation is byte-identical whatever tree it came from), the constant
+GenFuns_Prelude.v and the constant re-export GenFuns.v, plus GenFuns_<Cxx>.status.json (sha256 of the sources).
 `pre_hook` / `extra_hook` are the run-time glue used by harness/props/c{06,11,13,14,15}.py.
 """
 import ast
@@ -99,14 +149,71 @@ def repo_dir():
 Z, BOOL, OPTZ, CELL, ZLIST, NBHD, ZVEC, NNUM, HIST, CFG, ADDS, ADD, STORE, NATIDX, DICT5, UNUSED = (
     'Z', 'bool', 'optZ', 'cell', 'zlist', 'nbhd', 'zvec', 'N', 'hist', 'cfg', 'adds', 'add', 'store', 'natidx',
     'dict5', 'unused')
-COQ_TYPE = {Z: 'Z', BOOL: 'bool', OPTZ: 'option Z', CELL: '(Z * Z)', ZLIST: 'list Z', NBHD: 'list (list Z)',
+ACELL, ANB, TNAT, CELLLIST, STATE, INNERST, GRID2 = 'acell', 'anb', 'tnat', 'celllist', 'state', 'innerst', 'grid2'
+COQ_TYPE = {GRID2: 'list (list Z)', ACELL: 'cell', ANB: 'NB', TNAT: 'nat', CELLLIST: 'list cell', INNERST: 'St', Z: 'Z', BOOL: 'bool', OPTZ: 'option Z', CELL: '(Z * Z)', ZLIST: 'list Z', NBHD: 'list (list Z)',
             ZVEC: 'list Z', NNUM: 'N', HIST: 'list C', CFG: 'C', ADDS: 'list ((Z * Z) * Z)', ADD: '((Z * Z) * Z)',
             NATIDX: 'nat', DICT5: '(Z * Z * Z * Z * Z -> option Z)', STORE: 'S'}
+
+OPTZLIST, RULEFORM, SCHEME = 'optzlist', 'ruleform', 'scheme'
+BIT, BITS, BITINT = 'bit', 'bits', 'bitint'
+MATRIX = 'matrix'
+COQ_TYPE.update({MATRIX: 'list (list Z)', BIT: 'bool', BITS: 'list bool', BITINT: 'bool', 'list:bitint': 'list bool', OPTZLIST: 'option (list Z)', RULEFORM: 'rule_form', SCHEME: 'scheme', STATE: 'S'})
+
+
+def elem_type(ty):
+    """element type of a list-like type, or None"""
+    if ty in (ZLIST, ZVEC):
+        return Z
+    if ty in (NBHD, GRID2):
+        return ZLIST
+    if ty == CELLLIST:
+        return ACELL
+    if ty == HIST:
+        return CFG
+    if ty == BITS:
+        return BIT
+    if isinstance(ty, str) and ty.startswith('list:'):
+        return ty[5:]
+    return None
+
+
+def list_of(ty):
+    if ty == Z:
+        return ZLIST
+    if ty in (ZLIST, ZVEC):
+        return GRID2
+    if ty == ACELL:
+        return CELLLIST
+    return 'list:' + ty
+
+
+def pair_of(a, b):
+    return 'pair:%s,%s' % (a, b)
+
+
+def coq_type(ty):
+    if ty in COQ_TYPE:
+        return COQ_TYPE[ty]
+    if ty.startswith('list:'):
+        return 'list (%s)' % coq_type(ty[5:])
+    if ty.startswith('pair:'):
+        a, b = _split_pair(ty)
+        return '(%s * %s)' % (coq_type(a), coq_type(b))
+    raise TranslationError('no Coq type for %s' % ty)
+
+
+def _split_pair(ty):
+    body, depth = ty[5:], 0
+    for i, ch in enumerate(body):
+        if ch == ',' and depth == 0 and not body[:i].count('pair:') > body[:i].count(','):
+            return body[:i], body[i + 1:]
+    raise TranslationError('bad pair type %s' % ty)
+
 
 COQ_KEYWORDS = set('as at cofix else end exists exists2 fix for forall fun if IF in let match mod return Set Prop '
                    'SProp Type then using where with'.split())
 # identifiers that the templates emit: a Python local of that name would capture them
-TEMPLATE_NAMES = set('nth length concat zsum fold_left existsb negb fst snd bind Ok Raise Some None true false '
+TEMPLATE_NAMES = set('Next Break xorb rev firstn skipn removelast filter map combine seq repeat hd nth length concat zsum fold_left existsb negb fst snd bind Ok Raise Some None true false '
                      'ValueError IndexError py_get Z N nat list option bool st vec_read vec_write cfg_eqb C S '
                      'nks_rule andb orb xorb'.split())
 
@@ -119,6 +226,9 @@ CLASS_ATTRS = {
     'Evoloop': {'_rule_table': (DICT5, None)},
     'CTRBLRule': {'_rule_table': (DICT5, None)},
     'ReversibleRule': {'_rule_number': (NNUM, 'rule_number'), '_previous_state': (STORE, None)},
+    # '*': written once, in __init__ (any expression: the translated method sees its value as a parameter);
+    # '@m': written only by method m (not translated here: the translated method sees the current value)
+    'HopfieldNet': {'_r': (Z, '*'), '_W': (MATRIX, '@train')},
 }
 
 TARGETS = [
@@ -142,15 +252,51 @@ TARGETS = [
     dict(name='reversible_call', prop='C13', file='ca_functions.py', cls='ReversibleRule', func='__call__',
          params=[('n', ZVEC), ('c', NATIDX), ('t', UNUSED)], attrs=['_rule_number'], state='_previous_state',
          generic='{S : Type} (vec_read : S -> nat -> option Z) (vec_write : S -> nat -> Z -> S)'),
+    dict(name='bits_to_int', prop='C07', file='ca_functions.py', cls=None, func='bits_to_int',
+         params=[('bits', ZLIST)], attrs=[]),
+    dict(name='int_to_bits', prop='C07', file='ca_functions.py', cls=None, func='int_to_bits',
+         params=[('num', NNUM), ('num_digits', Z)], attrs=[], effects=True),
+    dict(name='binary_rule', prop='C07', file='ca_functions.py', cls=None, func='binary_rule',
+         params=[('neighbourhood', ZLIST), ('rule', RULEFORM), ('scheme', SCHEME), ('powers_of_two', OPTZLIST)],
+         attrs=[], effects=True, none_defaults=True),
+    dict(name='binary_derivative', prop='C18', file='bien.py', cls=None, func='binary_derivative',
+         params=[('string', BITS)], attrs=[], effects=True),
+    dict(name='cyclic_binary_derivative', prop='C18', file='bien.py', cls=None, func='cyclic_binary_derivative',
+         params=[('string', BITS)], attrs=[], effects=True),
+    dict(name='hopfield_rule', prop='C20', file='hopfield_net.py', cls='HopfieldNet', func='_rule',
+         params=[('n', ZVEC), ('c', Z), ('t', UNUSED)], attrs=['_W', '_r'], effects=True),
+    dict(name='async_current_cell_value_1d', prop='C12', file='ca_functions.py', cls='AsynchronousRule',
+         func='_current_cell_value', params=[('n', ZVEC)], attrs=[]),
+    dict(name='async_current_cell_value_2d', prop='C12', file='ca_functions.py', cls='AsynchronousRule',
+         func='_current_cell_value', params=[('n', GRID2)], attrs=[]),
     dict(name='until_fixed_point_timesteps', prop='C06', file='ca_functions.py', cls=None,
          func='until_fixed_point', inner='_timesteps',
          params=[('ca', HIST), ('t', UNUSED)], attrs=[],
          generic='{C : Type} (cfg_eqb : C -> C -> bool)'),
 ]
+GROUPS = [
+    dict(name='async', prop='C12', file='ca_functions.py', cls='AsynchronousRule',
+         context='Context (cell NB St : Type) (cell_eqb : cell -> cell -> bool) '
+                 '(apply_rule : St -> NB -> cell -> nat -> St * Z) (shuffle : nat -> list cell -> list cell) '
+                 '(current_cell_value : NB -> Z) (self_randomize_each_cycle : bool).',
+         fields=[('_update_order', CELLLIST), ('_curr', Z), ('_num_applied', Z)],
+         hidden=[('_shuffles', 'nat'), ('_apply_rule', 'St')],
+         ro={'_randomize_each_cycle': (BOOL, 'randomize_each_cycle')},
+         callable=('_apply_rule', 'apply_rule', [ANB, ACELL, TNAT]),
+         oracle=('_shuffle_update_order', '_update_order'),
+         abstract={'_current_cell_value': ('current_cell_value', [ANB], Z)},
+         constructor_side=['__init__', '_init_update_order'],
+         methods=[('_in_update_order', '_in_update_order', [('c', ACELL), ('n', ANB)]),
+                  ('_should_update', '_should_update', [('c', ACELL), ('n', ANB)]),
+                  ('_check_for_end_of_cycle', '_check_for_end_of_cycle', []),
+                  ('__call__', '_call', [('n', ANB), ('c', ACELL), ('t', TNAT)])]),
+]
+DIMS = {ZVEC: 1, GRID2: 2, NBHD: 2}      # len(n.shape) for the declared array types
 DEFAULT_PARAMS = ['current_activity', 'top', 'right', 'bottom', 'left']     # of the split default branches
 
-PRELUDE = '''From Coq Require Import ZArith List Bool.
-From CPL Require Import Model.Base Model.Numbering.
+PRELUDE = '''(* GENERATED by harness/translate.py (constant text): the fixed helpers of the translation templates. *)
+From Coq Require Import ZArith List Bool.
+From CPL Require Import Model.Base.
 Import ListNotations.
 Local Open Scope Z_scope.
 
@@ -160,6 +306,32 @@ Definition src_zin (x : Z) (l : list Z) : bool := existsb (Z.eqb x) l.
 Definition src_cell_eqb (a b : Z * Z) : bool := (fst a =? fst b) && (snd a =? snd b).
 Definition src_is_none (o : option Z) : bool := match o with None => true | Some _ => false end.
 Definition src_index {A} (o : option A) : res A := match o with Some v => Ok v | None => Raise IndexError end.
+(* W[a, b] on a matrix (list of rows), NumPy indexing *)
+Definition src_mat_get (W : list (list Z)) (a b : Z) : res Z := bind (py_get W a) (fun row => py_get row b).
+(* a loop whose body can raise, break or continue: the accumulator is threaded through the body *)
+Inductive src_ctl (A : Type) := Next (a : A) | Break (a : A).
+Arguments Next {A} a.
+Arguments Break {A} a.
+Fixpoint src_for {A B} (f : A -> B -> res (src_ctl A)) (l : list B) (a : A) : res A :=
+  match l with
+  | [] => Ok a
+  | x :: l' => match f a x with
+               | Raise e => Raise e
+               | Ok (Break a') => Ok a'
+               | Ok (Next a') => src_for f l' a'
+               end
+  end.
+(* np.pad(l, (k, 0), 'constant') *)
+Definition src_pad_left (k : Z) (l : list Z) : res (list Z) :=
+  if k <? 0 then Raise ValueError else Ok (repeat 0 (Z.to_nat k) ++ l).
+(* range(a, b), range(a, b, s) with s > 0, enumerate(l): the lists the loops fold over *)
+Definition src_range (a b : Z) : list Z := map (fun k => a + Z.of_nat k) (seq 0 (Z.to_nat (b - a))).
+Definition src_range_step (a b s : Z) : list Z :=
+  map (fun k => a + s * Z.of_nat k) (seq 0 (Z.to_nat ((b - a + s - 1) / s))).
+Definition src_enumerate {A} (l : list A) : list (Z * A) := combine (map Z.of_nat (seq 0 (length l))) l.
+(* a % b, a // b with a divisor that is not known at translation time (ZeroDivisionError -> OtherError) *)
+Definition src_mod (a b : Z) : res Z := if b =? 0 then Raise OtherError else Ok (Z.modulo a b).
+Definition src_div (a b : Z) : res Z := if b =? 0 then Raise OtherError else Ok (Z.div a b).
 '''
 
 
@@ -190,22 +362,46 @@ def _contains(stmts, kinds):
     return False
 
 
-def _assigned(stmts):
-    """local names assigned anywhere in the statements (in first-occurrence order)"""
+def _assigned(stmts, grp=None):
+    """local names assigned anywhere in the statements (in first-occurrence order); writes to the object state of
+    a class group (attribute stores, calls of methods that write it) count as assignments to `st`"""
     out = []
     for s in stmts:
         for n in ast.walk(s):
             tg = []
+            if grp is not None:
+                hit = False
+                if isinstance(n, (ast.Assign, ast.AugAssign)):
+                    for t in (n.targets if isinstance(n, ast.Assign) else [n.target]):
+                        for sub in ast.walk(t):
+                            if _is_self_attr(sub):
+                                hit = True
+                if isinstance(n, ast.Call) and _is_self_attr(n.func) and _group_call_mutates(grp, n.func.attr):
+                    hit = True
+                if hit and 'st' not in out:
+                    out.append('st')
             if isinstance(n, ast.Assign):
                 tg = n.targets
             elif isinstance(n, ast.AugAssign):
                 tg = [n.target]
             elif isinstance(n, ast.For):
                 tg = [n.target]
+            elif isinstance(n, ast.Expr) and isinstance(n.value, ast.Call) and isinstance(n.value.func, ast.Attribute) \
+                    and n.value.func.attr == 'append' and isinstance(n.value.func.value, ast.Name):
+                tg = [n.value.func.value]
             for t in tg:
                 if isinstance(t, ast.Name) and t.id not in out:
                     out.append(t.id)
     return out
+
+
+def _group_call_mutates(grp, meth):
+    if meth == grp.get('oracle', (None,))[0] or meth == grp.get('callable', (None,))[0]:
+        return True
+    if meth in grp.get('abstract', {}):
+        return False
+    d = grp['done'].get(meth)
+    return d is None or d['kind'] != 'ro'
 
 
 def _names_in(node):
@@ -227,6 +423,9 @@ class Env:
         self.binds = []               # pending (name, monadic text)
         self.noeffect = 0             # > 0: inside a position where an operation that can raise is rejected
         self.toplevel = True          # at the top level of the function body
+        self.nonneg = set()           # int locals known to be >= 0 (indices of range / enumerate)
+        self.pylists = set()          # locals bound to Python lists (not ndarrays)
+        self.loop_acc = None          # inside a loop translated with src_for: the text of its accumulator
 
     def copy(self):
         e = Env(self.fn)
@@ -234,6 +433,9 @@ class Env:
         e.elts = dict(self.elts)
         e.noeffect = self.noeffect
         e.toplevel = self.toplevel
+        e.nonneg = set(self.nonneg)
+        e.pylists = set(self.pylists)
+        e.loop_acc = self.loop_acc
         return e
 
 
@@ -253,6 +455,10 @@ class FunTrans:
         self.stateful = bool(target.get('state'))
         self.subdefs = []             # extra definitions produced (split default)
         self.mode_effects_ok = False  # may this function use bind / Raise (declared per target)
+        self.grp = target.get('grp')  # class group (object-state translation) or None
+        self.mutating = False         # group method that writes the object state
+        self.nbinds = 0
+        self.resolved_empty = {}      # locals bound to [] whose element type a later .append fixed
 
     # ---------------------------------------------------------------- return sites
     def ret(self, kind, text):
@@ -263,12 +469,26 @@ class FunTrans:
         kinds = {k for k, _ in self.rets}
         if not kinds:
             _err(node, 'function without a return site')
+        if self.grp and kinds == {'void'}:
+            # a method without return statements: its result is the object state it leaves
+            if not self.mutating:
+                _err(node, 'method without a result and without an effect on the object')
+            for i, (k, tx) in enumerate(self.rets):
+                text = text.replace('\x00RET%d\x00' % i, '(Ok st)' if self.effects else 'st')
+            cty = 'src_%s_state' % self.grp['name']
+            return text, ('res %s' % cty if self.effects else cty)
+        if 'void' in kinds:
+            _err(node, 'some paths return a value and some fall off the end of a method that writes the object')
         if kinds <= {Z}:
             rty = Z
         elif kinds <= {BOOL}:
             rty = BOOL
         elif kinds <= {Z, OPTZ, 'none'}:
             rty = OPTZ
+        elif len(kinds) == 1 and list(kinds)[0] not in ('none', 'void'):
+            rty = list(kinds)[0]
+        elif kinds <= {ZLIST, ZVEC}:
+            rty = ZLIST
         else:
             _err(node, 'return sites of incompatible kinds: %s' % sorted(kinds))
         for i, (k, tx) in enumerate(self.rets):
@@ -276,16 +496,19 @@ class FunTrans:
                 v = 'None' if k == 'none' else (tx if k == OPTZ else '(Some %s)' % tx)
             else:
                 v = tx
-            if self.stateful:
+            if self.stateful or self.mutating:
                 v = '(st, %s)' % v
             if self.effects:
                 v = '(Ok %s)' % v
             text = text.replace('\x00RET%d\x00' % i, v)
-        cty = COQ_TYPE[rty]
+        cty = coq_type(rty)
+        self.rty = rty
         if self.stateful:
             cty = '(S * %s)' % cty
+        if self.mutating:
+            cty = '(src_%s_state * %s)' % (self.grp['name'], cty)
         if self.effects:
-            cty = 'res %s' % cty
+            cty = 'res %s' % (cty if ' ' not in cty or cty.startswith('(') else '(%s)' % cty)
         return text, cty
 
     # ---------------------------------------------------------------- expressions
@@ -295,6 +518,7 @@ class FunTrans:
         if not self.mode_effects_ok:
             _err(node, 'an operation that can raise in a function declared pure')
         self.fresh += 1
+        self.nbinds += 1
         name = 'r_%d' % self.fresh
         env.binds.append((name, mtext))
         self.effects = True
@@ -358,6 +582,10 @@ class FunTrans:
             if ta != tb:
                 a, b, ta = self.unify(e, a, ta, b, tb)
             return '(if %s then %s else %s)' % (c, a, b), ta
+        if isinstance(e, ast.ListComp):
+            return self.listcomp(e, env)
+        if isinstance(e, ast.List) and not e.elts:
+            return '[]', 'emptylist'
         if isinstance(e, (ast.Tuple, ast.List)):
             txt, _ = self.zlist_literal(e, env)
             return txt, ZLIST
@@ -382,13 +610,21 @@ class FunTrans:
         return '[' + '; '.join(elts) + ']', elts
 
     def attribute(self, e, env):
+        if _is_self_attr(e) and self.grp:
+            a = e.attr
+            for f, ty in self.grp['fields']:
+                if f == a:
+                    return '(src_%s_get%s st)' % (self.grp['name'], a), ty
+            if a in self.grp.get('ro', {}):
+                return 'self' + a, self.grp['ro'][a][0]
+            _err(e, 'self.%s is not a declared attribute of this class group' % a)
         if _is_self_attr(e):
             a = e.attr
             if a in self.consts:
                 return _zlit(self.consts[a]), Z
             if a in self.attr_info and a in self.t['attrs']:
                 ty = self.attr_info[a]
-                if ty in (ADDS, DICT5, STORE):
+                if ty in (ADDS, DICT5, STORE, MATRIX):
                     _err(e, 'attribute self.%s may only be used through its idiom' % a)
                 return 'self' + a, ty
             _err(e, 'self.%s is not a declared attribute of this target' % a)
@@ -411,12 +647,28 @@ class FunTrans:
             a, ta = self.expr(e.left, env)
             if ta != Z:
                 _err(e, '`%` / `//` on a non-int')
+            if not (_is_int_const(e.right) or (_is_self_attr(e.right) and e.right.attr in self.consts)):
+                # divisor not known at translation time: ZeroDivisionError is modelled (src_mod / src_div)
+                b, tb = self.expr(e.right, env)
+                if tb != Z:
+                    _err(e, '`%` / `//` by a non-int')
+                r = self.bind(env, e, '%s %s %s' % ('src_mod' if isinstance(e.op, ast.Mod) else 'src_div', a, b))
+                return r, Z
             d = self.const_divisor(e.right)
             return '(%s %s %s)' % ('Z.modulo' if isinstance(e.op, ast.Mod) else 'Z.div', a, d), Z
         a, ta = self.expr(e.left, env)
         b, tb = self.expr(e.right, env)
+        if isinstance(e.op, ast.Add) and elem_type(ta) is not None and elem_type(ta) == elem_type(tb) \
+                and ta not in (ADDS, HIST) and self.is_list_value(e.left, env) and self.is_list_value(e.right, env):
+            return '(%s ++ %s)' % (a, b), (ZLIST if elem_type(ta) == Z else ta)
+        if isinstance(e.op, ast.BitXor) and ta == BITINT and tb == BITINT:
+            return '(xorb %s %s)' % (a, b), BITINT
         if ta != Z or tb != Z:
             _err(e, 'arithmetic on non-int operands (%s, %s) is outside the subset' % (ta, tb))
+        if isinstance(e.op, (ast.LShift, ast.Pow)):
+            if not self.is_nonneg(e.right, env):
+                _err(e, '`<<` / `**` with a right operand that is not known to be >= 0')
+            return ('(Z.shiftl %s %s)' if isinstance(e.op, ast.LShift) else '(Z.pow %s %s)') % (a, b), Z
         if isinstance(e.op, ast.Add):
             return '(%s + %s)' % (a, b), Z
         if isinstance(e.op, ast.Sub):
@@ -443,6 +695,12 @@ class FunTrans:
                 t = '(src_is_none %s)' % a
                 return (t if isinstance(op, ast.Is) else '(negb %s)' % t), BOOL
             a, ta = self.expr(l, env)
+            if ta == ACELL:
+                lst, tl = self.expr(r, env)
+                if tl != CELLLIST:
+                    _err(e, '`in` on a cell identity needs a list of cells on the right')
+                t = '(existsb (cell_eqb %s) %s)' % (a, lst)
+                return (t if isinstance(op, ast.In) else '(negb %s)' % t), BOOL
             if ta != Z:
                 _err(e, 'left operand of `in` is not an int (%s)' % ta)
             if isinstance(r, ast.Tuple):
@@ -453,10 +711,19 @@ class FunTrans:
                 _err(e, '`in` is only translated on a tuple literal of ints or a local bound to one')
             t = '(src_zin %s %s)' % (a, lst)
             return (t if isinstance(op, ast.In) else '(negb %s)' % t), BOOL
+        if len(e.ops) == 1 and isinstance(e.ops[0], (ast.Eq, ast.NotEq)) and isinstance(operands[0], ast.Name) \
+                and env.vars.get(operands[0].id) == SCHEME and isinstance(operands[1], ast.Constant) \
+                and operands[1].value == 'nks':
+            t = '(match %s with SNks => true | SDefault => false end)' % operands[0].id
+            return (t if isinstance(e.ops[0], ast.Eq) else '(negb %s)' % t), BOOL
         texts = [self.expr(x, env) for x in operands]
         parts = []
         for i, op in enumerate(e.ops):
             (a, ta), (b, tb) = texts[i], texts[i + 1]
+            if ta == ACELL and tb == ACELL and isinstance(op, (ast.Eq, ast.NotEq)):
+                t = '(cell_eqb %s %s)' % (a, b)
+                parts.append(t if isinstance(op, ast.Eq) else '(negb %s)' % t)
+                continue
             if ta == CELL and tb == CELL and isinstance(op, (ast.Eq, ast.NotEq)):
                 t = '(src_cell_eqb %s %s)' % (a, b)
                 parts.append(t if isinstance(op, ast.Eq) else '(negb %s)' % t)
@@ -479,7 +746,89 @@ class FunTrans:
                 _err(e, 'comparison operator %s is outside the subset' % type(op).__name__)
         return (parts[0] if len(parts) == 1 else '(' + ' && '.join(parts) + ')'), BOOL
 
+    def slice_expr(self, e, env):
+        l, tl = self.expr(e.value, env)
+        if elem_type(tl) is None or tl in (ADDS, HIST):
+            _err(e, 'slice of a value of type %s' % tl)
+        rty = ZLIST if elem_type(tl) == Z else tl
+        sl = e.slice
+        if sl.step is not None:
+            if sl.lower is None and sl.upper is None and isinstance(sl.step, ast.UnaryOp) \
+                    and isinstance(sl.step.op, ast.USub) and _is_int_const(sl.step.operand) and sl.step.operand.value == 1:
+                return '(rev %s)' % l, rty
+            _err(e, 'slice with a step other than [::-1]')
+        # l[:-1]
+        if sl.lower is None and isinstance(sl.upper, ast.UnaryOp) and isinstance(sl.upper.op, ast.USub) \
+                and _is_int_const(sl.upper.operand) and sl.upper.operand.value == 1:
+            return '(removelast %s)' % l, rty
+        for b in (sl.lower, sl.upper):
+            if b is not None and not self.is_nonneg(b, env):
+                _err(e, 'slice bound that is not known to be >= 0 (negative bounds count from the end)')
+        lo = self.expr(sl.lower, env) if sl.lower is not None else None
+        hi = self.expr(sl.upper, env) if sl.upper is not None else None
+        if (lo and lo[1] != Z) or (hi and hi[1] != Z):
+            _err(e, 'slice bound that is not an int')
+        if lo is None and hi is None:
+            return l, rty
+        if lo is None:
+            return '(firstn (Z.to_nat %s) %s)' % (hi[0], l), rty
+        if hi is None:
+            return '(skipn (Z.to_nat %s) %s)' % (lo[0], l), rty
+        return '(firstn (Z.to_nat %s - Z.to_nat %s)%%nat (skipn (Z.to_nat %s) %s))' % (hi[0], lo[0], lo[0], l), rty
+
+    def listcomp(self, e, env):
+        if len(e.generators) != 1:
+            _err(e, 'comprehension with several generators')
+        g = e.generators[0]
+        if g.is_async or len(g.ifs) > 1:
+            _err(e, 'comprehension with several conditions')
+        lst, ety, nonneg = self.iter_source(g.iter, env)
+        pat, newvars, nn = self.bind_pattern(g.target, ety, env, nonneg)
+        inner = env.copy()
+        inner.vars.update(newvars)
+        inner.nonneg = set(env.nonneg) | set(nn)
+        inner.noeffect = 1
+        if g.ifs:
+            c, tc = self.expr(g.ifs[0], inner)
+            if tc != BOOL:
+                _err(e, 'condition of a comprehension is not boolean')
+            lst = '(filter (fun %s => %s) %s)' % (pat, c, lst)
+        b, tb = self.expr(e.elt, inner)
+        return '(map (fun %s => %s) %s)' % (pat, b, lst), list_of(tb)
+
     def subscript(self, e, env):
+        if isinstance(e.slice, ast.Slice):
+            return self.slice_expr(e, env)
+        # self._W[a, b] on a matrix attribute: NumPy indexing (negative indices, IndexError)
+        if _is_self_attr(e.value) and self.attr_info.get(e.value.attr) == MATRIX and e.value.attr in self.t['attrs'] \
+                and isinstance(e.slice, ast.Tuple) and len(e.slice.elts) == 2:
+            (a, ta), (b, tb) = self.expr(e.slice.elts[0], env), self.expr(e.slice.elts[1], env)
+            if ta != Z or tb != Z:
+                _err(e, 'matrix index that is not a pair of ints')
+            return self.bind(env, e, 'src_mat_get self%s %s %s' % (e.value.attr, a, b)), Z
+        # n[n.shape[0]//2][n.shape[1]//2] on a 2D array: the centre idiom
+        if isinstance(e.value, ast.Subscript) and isinstance(e.value.value, ast.Name) \
+                and env.vars.get(e.value.value.id) == GRID2:
+            nm = e.value.value.id
+
+            def half_shape(x, k):
+                return (isinstance(x, ast.BinOp) and isinstance(x.op, ast.FloorDiv) and _is_int_const(x.right)
+                        and x.right.value == 2 and isinstance(x.left, ast.Subscript) and _is_int_const(x.left.slice)
+                        and x.left.slice.value == k and isinstance(x.left.value, ast.Attribute)
+                        and x.left.value.attr == 'shape' and isinstance(x.left.value.value, ast.Name)
+                        and x.left.value.value.id == nm)
+            if half_shape(e.value.slice, 0) and half_shape(e.slice, 1):
+                return '(nth (length (hd [] %s) / 2)%%nat (nth (length %s / 2)%%nat %s []) 0)' % (nm, nm, nm), Z
+            _err(e, 'subscript of a 2D array other than n[n.shape[0]//2][n.shape[1]//2]')
+        # L[i] on a list of cell identities (a field of the object): Python indexing, IndexError modelled
+        if not isinstance(e.value, ast.Name) and not isinstance(e.value, ast.Subscript) and self.grp:
+            lst, tl = self.expr(e.value, env)
+            if tl == CELLLIST:
+                i, ti = self.expr(e.slice, env)
+                if ti != Z:
+                    _err(e, 'index of a list of cells is not an int')
+                return self.bind(env, e, 'py_get %s %s' % (lst, i)), ACELL
+            _err(e, 'subscript of a value of type %s is outside the subset' % tl)
         # n[i][j] on the 3x3 block
         if isinstance(e.value, ast.Subscript) and isinstance(e.value.value, ast.Name) \
                 and env.vars.get(e.value.value.id) == NBHD:
@@ -487,6 +836,11 @@ class FunTrans:
             if _is_int_const(i) and _is_int_const(j) and i.value in (0, 1, 2) and j.value in (0, 1, 2):
                 return '(src_nb %s %d %d)' % (e.value.value.id, i.value, j.value), Z
             _err(e, 'subscript of the 3x3 neighbourhood with indices that are not constants in 0..2')
+        if isinstance(e.value, ast.Name) and env.vars.get(e.value.id) in (ZLIST, BITS):
+            i, ti = self.expr(e.slice, env)
+            if ti != Z:
+                _err(e, 'index of a list is not an int')
+            return self.bind(env, e, 'py_get %s %s' % (e.value.id, i)), elem_type(env.vars[e.value.id])
         if isinstance(e.value, ast.Name):
             ty = env.vars.get(e.value.id)
             if ty == CELL and _is_int_const(e.slice) and e.slice.value in (0, 1):
@@ -544,7 +898,18 @@ class FunTrans:
                 if tb != BOOL:
                     _err(e, 'np.any over non-boolean elements')
                 return '(existsb (fun %s => %s) %s)' % (v, b, lst), BOOL
+            # np.pad(l, (k, 0), 'constant'): k zeros in front; a negative k raises ValueError
+            if f.attr == 'pad' and len(e.args) == 3 and isinstance(e.args[1], ast.Tuple) \
+                    and len(e.args[1].elts) == 2 and _is_int_const(e.args[1].elts[1]) and e.args[1].elts[1].value == 0 \
+                    and isinstance(e.args[2], ast.Constant) and e.args[2].value == 'constant':
+                l, tl = self.expr(e.args[0], env)
+                k, tk = self.expr(e.args[1].elts[0], env)
+                if tl != ZLIST or tk != Z:
+                    _err(e, 'np.pad on (%s, %s)' % (tl, tk))
+                return self.bind(env, e, 'src_pad_left %s %s' % (k, l)), ZLIST
             _err(e, 'np.%s(...) in this form is outside the subset' % f.attr)
+        if _is_self_attr(f) and self.grp:
+            return self.group_call(e, env, statement=False)
         # self._method(args)
         if _is_self_attr(f):
             callee = self.mod.method_target(self.t.get('cls'), f.attr)
@@ -562,14 +927,93 @@ class FunTrans:
                 if ty != pty:
                     _err(x, 'argument %s of self.%s has type %s, expected %s' % (pn, f.attr, ty, pty))
                 args.append(tx)
-            rty = self.mod.result_type(callee['name'])
-            if rty is None:
+            rr = self.mod.result_type(callee['name'])
+            if rr is None:
                 _err(e, 'self.%s was not translated (or is translated later)' % f.attr)
-            return '(src_%s %s)' % (callee['name'], ' '.join(args)), rty
+            if rr[1]:
+                return self.bind(env, e, 'src_%s %s' % (callee['name'], ' '.join(args))), rr[0]
+            return '(src_%s %s)' % (callee['name'], ' '.join(args)), rr[0]
+        # f(args) where f is a translated module-level function of the same file
+        if isinstance(f, ast.Name):
+            callee = next((t for t in TARGETS if t['file'] == self.mod.fname and t.get('cls') is None
+                           and t['func'] == f.id and not t.get('inner')), None)
+            if callee is not None and callee['prop'] != self.t['prop']:
+                _err(e, '%s belongs to another property (%s): calls across properties are not translated' % (
+                    f.id, callee['prop']))
+            if callee is not None and self.mod.has_function(f.id):
+                live = [(pn, pty) for pn, pty in callee['params']]
+                if len(e.args) != len(live):
+                    _err(e, '%s called with %d arguments' % (f.id, len(e.args)))
+                args = []
+                for x, (pn, pty) in zip(e.args, live):
+                    tx, ty = self.expr(x, env)
+                    if ty != pty and not ({ty, pty} <= {ZLIST, ZVEC}):
+                        _err(x, 'argument %s of %s has type %s, expected %s' % (pn, f.id, ty, pty))
+                    if pty != UNUSED:
+                        args.append(tx)
+                rr = self.mod.result_type(callee['name'])
+                if rr is None:
+                    _err(e, '%s was not translated (or is translated later)' % f.id)
+                if rr[1]:
+                    return self.bind(env, e, 'src_%s %s' % (callee['name'], ' '.join(args))), rr[0]
+                return '(src_%s %s)' % (callee['name'], ' '.join(args)), rr[0]
+        # list(map(int, bin(num)[2:])): the binary digits of num, most significant first (the model's bin_digits)
+        if isinstance(f, ast.Name) and f.id == 'list' and len(e.args) == 1 and \
+                ast.dump(e.args[0])[:0] == '' and self.is_bin_digits(e.args[0], env):
+            return '(bin_digits %s)' % e.args[0].args[1].value.args[0].id, ZLIST
+        # a.dot(b) on two vectors: the model's dot
+        if isinstance(f, ast.Attribute) and f.attr == 'dot' and len(e.args) == 1:
+            a, ta = self.expr(f.value, env)
+            b, tb = self.expr(e.args[0], env)
+            if {ta, tb} <= {ZLIST, ZVEC}:
+                return '(dot %s %s)' % (a, b), Z
+            _err(e, '.dot on (%s, %s)' % (ta, tb))
+        # int(ch) on a character of a binary string: the bit
+        if isinstance(f, ast.Name) and f.id == 'int' and len(e.args) == 1 and not e.keywords:
+            a, ta = self.expr(e.args[0], env)
+            if ta == BIT:
+                return a, BITINT
+            if ta == Z:
+                return a, Z          # int() of an integer value (values are Z)
+            _err(e, 'int(..) of a value of type %s' % ta)
+        # ''.join([str(x) for x in bits]): the binary string of a list of 0/1 ints
+        if isinstance(f, ast.Attribute) and f.attr == 'join' and isinstance(f.value, ast.Constant) and f.value.value == '' \
+                and len(e.args) == 1 and isinstance(e.args[0], ast.ListComp) and len(e.args[0].generators) == 1:
+            lc = e.args[0]
+            g = lc.generators[0]
+            if (not g.ifs and isinstance(g.target, ast.Name) and isinstance(lc.elt, ast.Call)
+                    and isinstance(lc.elt.func, ast.Name) and lc.elt.func.id == 'str' and len(lc.elt.args) == 1
+                    and isinstance(lc.elt.args[0], ast.Name) and lc.elt.args[0].id == g.target.id):
+                l, tl = self.expr(g.iter, env)
+                if tl == 'list:bitint':
+                    return l, BITS
+                if tl == 'emptylist':
+                    return '(@nil bool)', BITS
+            _err(e, "''.join(..) other than ''.join([str(x) for x in <list of 0/1 ints>])")
+        if isinstance(f, ast.Name) and f.id == 'abs' and len(e.args) == 1:
+            a, ta = self.expr(e.args[0], env)
+            if ta != Z:
+                _err(e, 'abs of a non-int')
+            return '(Z.abs %s)' % a, Z
+        if isinstance(f, ast.Name) and f.id in ('max', 'min') and len(e.args) == 2:
+            (a, ta), (b, tb) = self.expr(e.args[0], env), self.expr(e.args[1], env)
+            if ta != Z or tb != Z:
+                _err(e, 'max / min of non-ints')
+            return '(Z.%s %s %s)' % (f.id, a, b), Z
         if isinstance(f, ast.Name):
             if f.id == 'len' and len(e.args) == 1 and isinstance(e.args[0], ast.Name) \
                     and env.vars.get(e.args[0].id) in (HIST, ZVEC):
                 return '(Z.of_nat (length %s))' % e.args[0].id, Z
+            if f.id == 'len' and len(e.args) == 1:
+                x = e.args[0]
+                # len(n.shape): the number of dimensions is part of the declared type of n
+                if isinstance(x, ast.Attribute) and x.attr == 'shape' and isinstance(x.value, ast.Name) \
+                        and env.vars.get(x.value.id) in DIMS:
+                    return _zlit(DIMS[env.vars[x.value.id]]), Z
+                a, ta = self.expr(x, env)
+                if elem_type(ta) is not None and ta != ADDS:
+                    return '(Z.of_nat (length %s))' % a, Z
+                _err(e, 'len of a value of type %s is outside the subset' % ta)
             if f.id == 'nks_rule' and len(e.args) == 2:
                 if not self.mod.has_function('nks_rule'):
                     _err(e, 'nks_rule is not a function of this module')
@@ -588,11 +1032,89 @@ class FunTrans:
             _err(e, '(A == B).all() on values that are not two states')
         _err(e, 'call is outside the subset')
 
+    def group_call(self, e, env, statement):
+        """self._m(args) inside a class group.  Returns (text, type); for a statement call returns None after
+        having pushed the state update onto the pending binds."""
+        g, m = self.grp, e.func.attr
+        gname = g['name']
+        if m == g.get('oracle', (None,))[0]:
+            if not statement or e.args:
+                _err(e, 'self.%s() is only translated as a statement without arguments' % m)
+            self.mutating = True
+            env.binds.append(('let:st', '(src_%s_shuffle st)' % gname))
+            return None
+        if m in g.get('abstract', {}):
+            pname, ptys, rty = g['abstract'][m]
+            args = self.call_args(e, env, ptys, m)
+            return '(%s %s)' % (pname, ' '.join(args)), rty
+        if m == g.get('callable', (None,))[0]:
+            _, pname, ptys = g['callable']
+            if env.noeffect:
+                _err(e, 'call of the wrapped rule inside a short-circuit position')
+            args = self.call_args(e, env, ptys, m)
+            self.mutating = True
+            self.fresh += 1
+            k = self.fresh
+            env.binds.append(("let:'(s_%d, v_%d)" % (k, k), '%s (src_%s_get_%s st) %s' % (pname, gname, pname, ' '.join(args))))
+            env.binds.append(('let:st', '(src_%s_set_%s st s_%d)' % (gname, pname, k)))
+            return 'v_%d' % k, Z
+        d = g['done'].get(m)
+        if d is None:
+            _err(e, 'self.%s(...) is not a translated method of this class group (or is translated later)' % m)
+        args = self.call_args(e, env, [ty for _, ty in d['params']], m)
+        call = 'src_%s%s st %s' % (gname, d['suffix'], ' '.join(args))
+        if d['kind'] == 'ro':
+            if d['res']:
+                return self.bind(env, e, call), d['rty']
+            return '(%s)' % call, d['rty']
+        if env.noeffect:
+            _err(e, 'call of a method that writes the object inside a short-circuit position')
+        self.mutating = True
+        if d['kind'] == 'void':
+            if not statement:
+                _err(e, 'self.%s() has no result; it is only translated as a statement' % m)
+            if d['res']:
+                if not self.mode_effects_ok:
+                    _err(e, 'an operation that can raise in a function declared pure')
+                self.effects = True
+                self.nbinds += 1
+                env.binds.append(('st', call))
+            else:
+                env.binds.append(('let:st', '(%s)' % call))
+            return None
+        _err(e, 'call of a method that writes the object and returns a value is outside the subset')
+
+    def is_bin_digits(self, x, env):
+        """map(int, bin(num)[2:]) with num : N"""
+        try:
+            return (isinstance(x, ast.Call) and x.func.id == 'map' and len(x.args) == 2 and x.args[0].id == 'int'
+                    and isinstance(x.args[1], ast.Subscript) and isinstance(x.args[1].slice, ast.Slice)
+                    and _is_int_const(x.args[1].slice.lower) and x.args[1].slice.lower.value == 2
+                    and x.args[1].slice.upper is None and x.args[1].slice.step is None
+                    and x.args[1].value.func.id == 'bin' and len(x.args[1].value.args) == 1
+                    and env.vars.get(x.args[1].value.args[0].id) == NNUM)
+        except AttributeError:
+            return False
+
+    def call_args(self, e, env, ptys, m):
+        if len(e.args) != len(ptys) or e.keywords:
+            _err(e, 'self.%s called with %d arguments' % (m, len(e.args)))
+        args = []
+        for x, pty in zip(e.args, ptys):
+            tx, ty = self.expr(x, env)
+            if ty != pty:
+                _err(x, 'argument of self.%s has type %s, expected %s' % (m, ty, pty))
+            args.append(tx)
+        return args
+
     # ---------------------------------------------------------------- statements
     def wrap_binds(self, env, text):
-        """wrap `text` in the pending binds (first evaluated outermost)"""
+        """wrap `text` in the pending binds / lets (first evaluated outermost)"""
         for name, m in reversed(env.binds):
-            text = '(bind (%s) (fun %s =>\n%s))' % (m, name, text)
+            if name.startswith('let:'):
+                text = '(let %s := %s in\n%s)' % (name[4:], m, text)
+            else:
+                text = '(bind (%s) (fun %s =>\n%s))' % (m, name, text)
         env.binds = []
         return text
 
@@ -627,6 +1149,28 @@ class FunTrans:
         # the dictionary idiom (last two statements)
         if self.is_dict_idiom(s, rest):
             return self.dict_idiom(s, rest[0], env)
+        if self.grp and isinstance(s, ast.Expr) and isinstance(s.value, ast.Call) and _is_self_attr(s.value.func):
+            r = self.group_call(s.value, env, statement=True)
+            if r is not None:
+                _err(s, 'the result of self.%s(...) is discarded' % s.value.func.attr)
+            return self.wrap_binds(env, cont(env.copy()))
+        if self.grp and isinstance(s, (ast.Assign, ast.AugAssign)):
+            tg = s.targets[0] if isinstance(s, ast.Assign) and len(s.targets) == 1 else getattr(s, 'target', None)
+            if tg is not None and _is_self_attr(tg):
+                fields = dict(self.grp['fields'])
+                if tg.attr not in fields:
+                    _err(s, 'write to self.%s, which is not a declared field of the object state' % tg.attr)
+                v, tv = self.expr(s.value, env)
+                if tv != fields[tg.attr] or tv not in (Z, BOOL):
+                    _err(s, 'write of a value of type %s to self.%s' % (tv, tg.attr))
+                gname = self.grp['name']
+                if isinstance(s, ast.AugAssign):
+                    if not isinstance(s.op, (ast.Add, ast.Sub)) or tv != Z:
+                        _err(s, 'augmented assignment other than += / -= on an int field')
+                    v = '((src_%s_get%s st) %s %s)' % (gname, tg.attr, '+' if isinstance(s.op, ast.Add) else '-', v)
+                self.mutating = True
+                return self.wrap_binds(env, self.let('st', '(src_%s_set%s st %s)' % (gname, tg.attr, v),
+                                                     cont(env.copy())))
         if isinstance(s, ast.Assign):
             if len(s.targets) != 1:
                 _err(s, 'multiple assignment targets')
@@ -642,6 +1186,12 @@ class FunTrans:
                 env2.elts.pop(name, None)
                 if isinstance(s.value, (ast.Tuple, ast.List)):
                     env2.elts[name] = self.zlist_literal(s.value, env)[1]
+                env2.pylists.discard(name)
+                if self.is_list_value(s.value, env):
+                    env2.pylists.add(name)
+                env2.nonneg.discard(name)
+                if ty == Z and self.is_nonneg(s.value, env):
+                    env2.nonneg.add(name)          # a local bound to an expression that is syntactically >= 0
                 # a local that is a component of a recorded tuple must not be re-bound afterwards
                 for other, elts in env.elts.items():
                     if name in elts and other != name:
@@ -681,7 +1231,7 @@ class FunTrans:
             if s.value is None or (isinstance(s.value, ast.Constant) and s.value.value is None):
                 return self.ret('none', 'None')
             tx, ty = self.expr(s.value, env)
-            if ty not in (Z, BOOL, OPTZ):
+            if ty in (ADDS, DICT5, STORE, UNUSED, STATE):
                 _err(s, 'return of a value of type %s' % ty)
             return self.wrap_binds(env, self.ret(ty, tx))
         if isinstance(s, ast.Raise):
@@ -707,7 +1257,52 @@ class FunTrans:
                 _err(s, 'raise in a function declared pure')
             self.effects = True
             return '(Raise ValueError)'
+        if isinstance(s, (ast.Break, ast.Continue)):
+            if env.loop_acc is None:
+                _err(s, 'break / continue outside a loop translated with src_for')
+            if rest:
+                _err(rest[0], 'statements after break / continue')
+            return '(Ok (%s %s))' % ('Break' if isinstance(s, ast.Break) else 'Next', env.loop_acc)
+        if isinstance(s, ast.Expr) and isinstance(s.value, ast.Call) and isinstance(s.value.func, ast.Attribute) \
+                and s.value.func.attr == 'append' and isinstance(s.value.func.value, ast.Name) \
+                and len(s.value.args) == 1 and not s.value.keywords:
+            name = s.value.func.value.id
+            if name not in env.pylists or elem_type(env.vars.get(name)) is None and env.vars.get(name) != 'emptylist':
+                _err(s, '.append on something that is not a local Python list')
+            v, tv = self.expr(s.value.args[0], env)
+            lty = env.vars[name]
+            if lty == 'emptylist':
+                lty = list_of(tv)
+                self.resolved_empty[name] = lty
+            elif elem_type(lty) != tv:
+                _err(s, 'append of a %s to a list of %s' % (tv, elem_type(lty)))
+            env2 = env.copy()
+            env2.vars[name] = lty
+            return self.wrap_binds(env, self.let(name, '(%s ++ [%s])' % (name, v), cont(env2)))
+        if isinstance(s, ast.Assert):
+            if s.msg is not None and not isinstance(s.msg, ast.Constant):
+                _err(s, 'assert with a computed message')
+            c, tc = self.expr(s.test, env)
+            if tc != BOOL:
+                _err(s, 'assert on a non-boolean')
+            if not self.mode_effects_ok:
+                _err(s, 'assert in a function declared pure')
+            self.effects = True
+            return self.wrap_binds(env, '(if %s\nthen %s\nelse (Raise AssertionError))' % (c, cont(env.copy())))
         if isinstance(s, ast.If):
+            m = self.match_test(s.test, env)
+            if m is not None:
+                name, pos, neg = m      # (constructor pattern, type of the name) for the true / false branch
+                a_env, b_env = env.copy(), env.copy()
+                a_env.toplevel = b_env.toplevel = False
+                for en, (pat, ty) in ((a_env, pos), (b_env, neg)):
+                    if ty is None:
+                        en.vars[name] = UNUSED
+                    else:
+                        en.vars[name] = ty
+                a = self.block(s.body, a_env, cont)
+                b = self.block(s.orelse, b_env, cont)
+                return '(match %s with\n| %s => %s\n| %s => %s\nend)' % (name, pos[0], a, neg[0], b)
             return self.if_stmt(s, env, cont)
         if isinstance(s, ast.For):
             return self.for_stmt(s, env, cont)
@@ -721,26 +1316,81 @@ class FunTrans:
         sub.toplevel = False
         return self.block(stmts, sub, k)
 
+    def match_test(self, t, env):
+        """tests that discriminate a tagged argument: `x is None` on an optional list, isinstance(rule, (list,
+        np.ndarray)) on the rule argument (RBits l / RInt n)"""
+        if isinstance(t, ast.Compare) and len(t.ops) == 1 and isinstance(t.ops[0], (ast.Is, ast.IsNot)) \
+                and isinstance(t.left, ast.Name) and env.vars.get(t.left.id) == OPTZLIST \
+                and isinstance(t.comparators[0], ast.Constant) and t.comparators[0].value is None:
+            x = t.left.id
+            none, some = ('None', None), ('Some %s' % x, ZLIST)
+            return (x, none, some) if isinstance(t.ops[0], ast.Is) else (x, some, none)
+        if isinstance(t, ast.Call) and isinstance(t.func, ast.Name) and t.func.id == 'isinstance' and len(t.args) == 2 \
+                and isinstance(t.args[0], ast.Name) and env.vars.get(t.args[0].id) == RULEFORM \
+                and isinstance(t.args[1], ast.Tuple) and \
+                sorted(ast.unparse(x) for x in t.args[1].elts) == ['list', 'np.ndarray']:
+            x = t.args[0].id
+            return (x, ('RBits %s' % x, ZLIST), ('RInt %s' % x, NNUM))
+        return None
+
+    def static_test(self, t, env):
+        """len(n.shape) == k, decided by the declared type of n; None when the test is not of that form"""
+        if isinstance(t, ast.Compare) and len(t.ops) == 1 and isinstance(t.ops[0], ast.Eq) \
+                and _is_int_const(t.comparators[0]) and isinstance(t.left, ast.Call) \
+                and isinstance(t.left.func, ast.Name) and t.left.func.id == 'len' and len(t.left.args) == 1:
+            x = t.left.args[0]
+            if isinstance(x, ast.Attribute) and x.attr == 'shape' and isinstance(x.value, ast.Name) \
+                    and env.vars.get(x.value.id) in DIMS:
+                return DIMS[env.vars[x.value.id]] == t.comparators[0].value
+        return None
+
     def if_stmt(self, s, env, cont):
+        sv = self.static_test(s.test, env)
+        if sv is not None:
+            # the dimension of the array is part of its declared type: only the live branch is translated
+            live = env.copy()
+            return self.block(s.body if sv else s.orelse, live, cont)
         c, tc = self.expr(s.test, env)
+        if tc == Z:
+            c, tc = '(negb (%s =? 0))' % c, BOOL          # truthiness of an int: non-zero
         if tc != BOOL:
             _err(s, 'condition of `if` is not boolean (%s): truthiness of other values is outside the subset' % tc)
-        if _contains(s.body + s.orelse, (ast.Return, ast.Raise)):
+        if _contains(s.body + s.orelse, (ast.Return, ast.Raise, ast.Break, ast.Continue)):
             a_env, b_env = env.copy(), env.copy()
             a_env.toplevel = b_env.toplevel = False
             a = self.block(s.body, a_env, cont)
             b = self.block(s.orelse, b_env, cont)
             return self.wrap_binds(env, '(if %s\nthen %s\nelse %s)' % (c, a, b))
-        W = _assigned(s.body + s.orelse)
+        W = _assigned(s.body + s.orelse, self.grp)
         if not W:
             _err(s, '`if` without effect')
+        if any(w not in env.vars for w in W):
+            # a local first assigned inside the branches: translate with the continuation in both branches; a path
+            # on which the local stays undefined then fails at its first use (name not known)
+            if not s.orelse:
+                w = [w for w in W if w not in env.vars][0]
+                _err(s, 'local %r is first assigned inside a branch (possibly undefined afterwards)' % w)
+            a_env, b_env = env.copy(), env.copy()
+            a_env.toplevel = b_env.toplevel = False
+            a = self.block(s.body, a_env, cont)
+            b = self.block(s.orelse, b_env, cont)
+            return self.wrap_binds(env, '(if %s\nthen %s\nelse %s)' % (c, a, b))
         for w in W:
             if w not in env.vars:
                 _err(s, 'local %r is first assigned inside a branch (possibly undefined afterwards)' % w)
-            if env.vars[w] not in (Z, BOOL, OPTZ):
+            if env.vars[w] not in (Z, BOOL, OPTZ, STATE):
                 _err(s, 'local %r of type %s assigned inside a branch' % (w, env.vars[w]))
+        n0 = self.nbinds
         a = self.value_block(s.body, env, W)
         b = self.value_block(s.orelse, env, W)
+        if self.nbinds != n0:
+            # a branch contains an operation that can raise: its value is not a plain value; translate the `if`
+            # with its continuation in both branches instead
+            a_env, b_env = env.copy(), env.copy()
+            a_env.toplevel = b_env.toplevel = False
+            a = self.block(s.body, a_env, cont)
+            b = self.block(s.orelse, b_env, cont)
+            return self.wrap_binds(env, '(if %s\nthen %s\nelse %s)' % (c, a, b))
         env2 = env.copy()
         for other, elts in env.elts.items():
             if set(W) & set(elts):
@@ -751,12 +1401,14 @@ class FunTrans:
     def for_stmt(self, s, env, cont):
         if s.orelse:
             _err(s, 'for ... else')
-        if not isinstance(s.target, ast.Name):
-            _err(s, 'loop target is not a name')
-        x = _check_ident(s.target, s.target.id)
-        if x in env.vars:
-            _err(s, 'loop variable %r shadows a local' % x)
         # the scan over self._grain_additions
+        if _is_self_attr(s.iter) and not isinstance(s.target, ast.Name):
+            _err(s, 'loop target is not a name')
+        x = s.target.id if isinstance(s.target, ast.Name) else None
+        if x is not None and _is_self_attr(s.iter):
+            _check_ident(s.target, x)
+            if x in env.vars:
+                _err(s, 'loop variable %r shadows a local' % x)
         if _is_self_attr(s.iter) and self.attr_info.get(s.iter.attr) == ADDS and s.iter.attr in self.t['attrs']:
             b = s.body
             if not (len(b) == 1 and isinstance(b[0], ast.If) and not b[0].orelse and len(b[0].body) == 1
@@ -774,30 +1426,154 @@ class FunTrans:
             r_env.toplevel = False
             val = self.block([b[0].body[0]], r_env, None)
             return '(if existsb (fun %s => %s) self%s\nthen %s\nelse %s)' % (x, tst, s.iter.attr, val, cont(env))
-        # fold over a literal list / tuple
-        if isinstance(s.iter, (ast.List, ast.Tuple)):
-            lst, _ = self.zlist_literal(s.iter, env)
-        elif isinstance(s.iter, ast.Name) and env.vars.get(s.iter.id) == ZLIST:
-            lst = s.iter.id
-        else:
-            _err(s, 'loop over something that is not a list/tuple literal (or a local bound to one)')
-        if _contains(s.body, (ast.Return, ast.Raise, ast.Break, ast.Continue, ast.For, ast.While)):
-            _err(s, 'loop body with return / raise / break / continue / nested loop')
-        W = _assigned(s.body)
-        if len(W) != 1:
-            _err(s, 'loop body must assign exactly one local (assigns %s)' % W)
-        w = W[0]
-        if env.vars.get(w) != Z:
-            _err(s, 'loop accumulator %r is not an int local defined before the loop' % w)
+        return self.fold_loop(s, env, cont)
+        _err(s, 'unreachable')
+
+    def iter_source(self, it, env):
+        """the list a `for` / comprehension iterates over -> (coq text, element type, nonneg index?)"""
+        if isinstance(it, ast.Call) and isinstance(it.func, ast.Name) and it.func.id == 'range' and not it.keywords \
+                and 1 <= len(it.args) <= 3:
+            args = [self.expr(a, env) for a in it.args]
+            if any(t != Z for _, t in args):
+                _err(it, 'range over non-int bounds')
+            lo = '0' if len(args) == 1 else args[0][0]
+            hi = args[0][0] if len(args) == 1 else args[1][0]
+            nonneg = len(args) == 1 or (_is_int_const(it.args[0]) and it.args[0].value >= 0) or \
+                self.is_nonneg(it.args[0], env)
+            if len(args) == 3:
+                if not (_is_int_const(it.args[2]) and it.args[2].value > 0):
+                    _err(it, 'range with a step that is not a positive literal')
+                return '(src_range_step %s %s %s)' % (lo, hi, args[2][0]), Z, nonneg
+            return '(src_range %s %s)' % (lo, hi), Z, nonneg
+        if isinstance(it, ast.Call) and isinstance(it.func, ast.Name) and it.func.id == 'enumerate' \
+                and len(it.args) == 1 and not it.keywords:
+            l, tl = self.expr(it.args[0], env)
+            et = elem_type(tl)
+            if et is None:
+                _err(it, 'enumerate over a value of type %s' % tl)
+            return '(src_enumerate %s)' % l, pair_of(Z, et), True
+        l, tl = self.expr(it, env)
+        et = elem_type(tl)
+        if et is None or tl in (ADDS,):
+            _err(it, 'loop over a value of type %s is outside the subset' % tl)
+        return l, et, False
+
+    def is_list_value(self, node, env):
+        """Python LISTS (for which + is concatenation), as opposed to ndarrays (for which + is elementwise):
+        list literals, comprehensions, slices / concatenations of lists, locals bound to one"""
+        if isinstance(node, (ast.List, ast.ListComp)):
+            return True
+        if isinstance(node, ast.Name):
+            return node.id in env.pylists
+        if isinstance(node, ast.Subscript) and isinstance(node.slice, ast.Slice):
+            return self.is_list_value(node.value, env)
+        if isinstance(node, ast.BinOp) and isinstance(node.op, ast.Add):
+            return self.is_list_value(node.left, env) and self.is_list_value(node.right, env)
+        if isinstance(node, ast.Call) and isinstance(node.func, ast.Name) and node.func.id == 'list':
+            return True
+        return False
+
+    def is_nonneg(self, node, env):
+        """syntactic guarantee that an int expression is >= 0"""
+        if _is_int_const(node):
+            return node.value >= 0
+        if isinstance(node, ast.Name):
+            return node.id in env.nonneg
+        if isinstance(node, ast.Call) and isinstance(node.func, ast.Name) and node.func.id in ('len', 'abs'):
+            return True
+        if isinstance(node, ast.BinOp):
+            if isinstance(node.op, (ast.Add, ast.Mult)):
+                return self.is_nonneg(node.left, env) and self.is_nonneg(node.right, env)
+            if isinstance(node.op, (ast.FloorDiv, ast.Mod)) and _is_int_const(node.right) and node.right.value > 0:
+                return isinstance(node.op, ast.Mod) or self.is_nonneg(node.left, env)
+            if isinstance(node.op, ast.Pow):
+                return self.is_nonneg(node.left, env)
+        return False
+
+    def bind_pattern(self, target, ety, env, nonneg):
+        """loop / comprehension target -> (coq pattern, {name: type})"""
+        if isinstance(target, ast.Name):
+            x = _check_ident(target, target.id)
+            if x in env.vars:
+                _err(target, 'loop variable %r shadows a local' % x)
+            return x, {x: ety}, ([x] if nonneg and ety == Z else [])
+        if isinstance(target, ast.Tuple) and len(target.elts) == 2 and ety.startswith('pair:') \
+                and all(isinstance(t, ast.Name) for t in target.elts):
+            a, b = _split_pair(ety)
+            na, nb = (_check_ident(t, t.id) for t in target.elts)
+            if na in env.vars or nb in env.vars or na == nb:
+                _err(target, 'loop variables shadow a local')
+            return "'(%s, %s)" % (na, nb), {na: a, nb: b}, ([na] if nonneg and a == Z else [])
+        _err(target, 'loop target is outside the subset')
+
+    def fold_loop(self, s, env, cont):
+        lst, ety, nonneg = self.iter_source(s.iter, env)
+        pat, newvars, nn = self.bind_pattern(s.target, ety, env, nonneg)
+        if _contains(s.body, (ast.Return, ast.Raise, ast.While)):
+            _err(s, 'loop body with return / raise / while')
+        W = _assigned(s.body, self.grp)
+        # locals first assigned inside the body are temporaries of one iteration: they are not accumulators, a read
+        # before the assignment in the body fails (name not known), and they are not visible after the loop
+        W = [w for w in W if w not in newvars and not self.is_inner_loop_var(s.body, w) and w in env.vars]
+        if not W:
+            _err(s, 'loop without effect')
+        for w in W:
+            if w not in env.vars or env.vars[w] in (UNUSED, ADDS, DICT5, STORE):
+                _err(s, 'loop accumulator %r is not a local defined before the loop' % w)
+        acc = W[0] if len(W) == 1 else '(' + ', '.join(W) + ')'
+        accpat = W[0] if len(W) == 1 else "'(" + ', '.join(W) + ')'
         inner = env.copy()
-        inner.vars[x] = Z
-        inner.noeffect = 1
-        body = self.value_block(s.body, inner, [w])
+        inner.vars.update(newvars)
+        inner.nonneg = set(env.nonneg) | set(nn)
+        ctl = _contains(s.body, (ast.Break, ast.Continue))
+        body = None
+        if not ctl:
+            inner.noeffect = 1
+            try:
+                body = self.value_block(s.body, inner, W)
+            except TranslationError as ex:
+                if 'that can raise inside a short-circuit position' in str(ex) and self.mode_effects_ok \
+                        and not env.noeffect:
+                    ctl = True
+                else:
+                    raise
         env2 = env.copy()
         for other, elts in env.elts.items():
-            if w in elts:
+            if set(W) & set(elts):
                 env2.elts.pop(other, None)
-        return self.let(w, '(fold_left (fun %s %s => %s) %s %s)' % (w, x, body, lst, w), cont(env2))
+        if ctl:
+            # a body that can raise, break or continue: src_for threads the accumulator through
+            # A -> B -> res (Next a | Break a)
+            if not self.mode_effects_ok or env.noeffect:
+                _err(s, 'loop with break / an operation that can raise, in a position where that is not translated')
+            inner = env.copy()
+            inner.vars.update(newvars)
+            inner.nonneg = set(env.nonneg) | set(nn)
+            inner.noeffect = 0
+            inner.loop_acc = acc
+            inner.toplevel = False
+            body = self.block(s.body, inner, lambda env3: '(Ok (Next %s))' % acc)
+            for w in W:
+                if env.vars[w] == 'emptylist' and w in self.resolved_empty:
+                    env2.vars[w] = self.resolved_empty[w]
+            self.effects = True
+            self.nbinds += 1
+            return '(bind (src_for (fun %s %s =>\n%s) %s %s) (fun %s =>\n%s))' % (
+                accpat, pat, body, lst, acc, accpat, cont(env2))
+        for w in W:
+            if env.vars[w] == 'emptylist' and w in self.resolved_empty:
+                env2.vars[w] = self.resolved_empty[w]
+        return self.let(accpat, '(fold_left (fun %s %s => %s) %s %s)' % (accpat, pat, body, lst, acc), cont(env2))
+
+    @staticmethod
+    def is_inner_loop_var(stmts, w):
+        for st in stmts:
+            for n in ast.walk(st):
+                if isinstance(n, ast.For):
+                    for t in ast.walk(n.target):
+                        if isinstance(t, ast.Name) and t.id == w:
+                            return True
+        return False
 
     # ---------------------------------------------------------------- the dictionary idiom
     def is_dict_idiom(self, s, rest):
@@ -924,6 +1700,15 @@ def _class_facts(mod, clsnode, clsname):
                 attr_info[attr] = decl[attr][0]
             elif attr in decl and decl[attr][0] == ADDS and isinstance(v, ast.List) and not v.elts:
                 attr_info[attr] = ADDS
+            elif attr in decl and decl[attr][1] == '*':
+                attr_info[attr] = decl[attr][0]
+    for attr, (ty, par) in decl.items():
+        if isinstance(par, str) and par.startswith('@'):
+            if all(w[0] == par[1:] for w in writes.get(attr, [])) and not any(
+                    isinstance(n, ast.Subscript) and isinstance(n.ctx, ast.Store) and _is_self_attr(n.value, attr)
+                    for fn in clsnode.body if isinstance(fn, ast.FunctionDef) and fn.name != par[1:]
+                    for n in ast.walk(fn)):
+                attr_info[attr] = ty
     for attr, (ty, _) in decl.items():
         if ty == DICT5:
             # the table is only ever read by the translated methods; who fills it is the business of GenTables.v
@@ -1010,7 +1795,9 @@ def translate_target(mod, target):
     if fn.decorator_list:
         _err(fn, 'decorated function')
     a = fn.args
-    if a.vararg or a.kwarg or a.kwonlyargs or a.defaults or a.posonlyargs or a.kw_defaults:
+    defaults_ok = not a.defaults or (target.get('none_defaults') and all(
+        isinstance(d, ast.Constant) and d.value is None for d in a.defaults))
+    if a.vararg or a.kwarg or a.kwonlyargs or not defaults_ok or a.posonlyargs or a.kw_defaults:
         _err(fn, 'parameter list with defaults / *args / **kwargs')
     names = [x.arg for x in a.args]
     want = (['self'] if target.get('cls') else []) + [p for p, _ in target['params']]
@@ -1024,7 +1811,8 @@ def translate_target(mod, target):
                 _err(fn, 'self.%s is not set the way the target declares (constructor parameter stored once in '
                          '__init__ / [] filled by add_grain only)' % at)
     ft = FunTrans(mod, target, clsnode, attr_info, consts)
-    ft.mode_effects_ok = target['name'] in ('ctrbl_call', 'reversible_call', 'until_fixed_point_timesteps')
+    ft.mode_effects_ok = target.get('effects', False) or \
+        target['name'] in ('ctrbl_call', 'reversible_call', 'until_fixed_point_timesteps')
     env = Env(ft)
     env.toplevel = True
     for p, ty in target['params']:
@@ -1041,9 +1829,111 @@ def translate_target(mod, target):
                 what=('%s.%s' % (target['cls'], target['func']) if target.get('cls') else
                       target['func'] + ('.' + target['inner'] if target.get('inner') else '')),
                 consts=consts)
-    rty = {'Z': Z, 'bool': BOOL, 'option Z': OPTZ}.get(cty)
-    mod.results[target['name']] = rty
+    mod.results[target['name']] = (ft.rty, ft.effects)
     return ft.subdefs + [main]
+
+
+def translate_group(mod, grp):
+    """a class whose methods read and WRITE attributes: the object is a record of the declared fields, a method is
+    a function  state -> args -> result  (reads only),  state -> args -> state  (no return value) or
+    state -> args -> state * result, wrapped in `res` when an operation in it can raise"""
+    cls = mod.find_class(grp['cls'])
+    if cls is None:
+        raise TranslationError('class %s not found in %s' % (grp['cls'], mod.fname))
+    g = grp['name']
+    grp['done'] = {}
+    fields = dict(grp['fields'])
+    methods = {n.name: n for n in cls.body if isinstance(n, ast.FunctionDef)}
+    translated = [m for m, _, _ in grp['methods']]
+    # who writes which attribute
+    for fn in methods.values():
+        for n in ast.walk(fn):
+            if _is_self_attr(n) and isinstance(n.ctx, ast.Store):
+                if fn.name in grp['constructor_side']:
+                    continue
+                if fn.name not in translated:
+                    _err(n, 'self.%s is written by %s, which is neither translated nor on the constructor side'
+                         % (n.attr, fn.name))
+                if n.attr not in fields:
+                    _err(n, 'self.%s is written by %s but is not a declared field' % (n.attr, fn.name))
+    for a, (ty, par) in grp.get('ro', {}).items():
+        init = methods.get('__init__')
+        ws = [n for n in ast.walk(init) if isinstance(n, ast.Assign) and len(n.targets) == 1
+              and _is_self_attr(n.targets[0], a)] if init is not None else []
+        if not (len(ws) == 1 and isinstance(ws[0].value, ast.Name) and ws[0].value.id == par
+                and par in [x.arg for x in init.args.args]):
+            raise TranslationError('self.%s is not the constructor parameter %s stored once' % (a, par))
+    if grp.get('oracle'):
+        om, oattr = grp['oracle']
+        fn = methods.get(om)
+        body = [x for x in fn.body if not (isinstance(x, ast.Expr) and isinstance(x.value, ast.Constant))] if fn else []
+        ok = (fn is not None and [a.arg for a in fn.args.args] == ['self'] and len(body) == 1
+              and isinstance(body[0], ast.Expr) and isinstance(body[0].value, ast.Call)
+              and ast.dump(body[0].value.func) == ast.dump(ast.parse('np.random.shuffle', mode='eval').body)
+              and len(body[0].value.args) == 1 and _is_self_attr(body[0].value.args[0], oattr)
+              and not body[0].value.keywords and mod.imports_numpy_as_np)
+        if not ok:
+            raise TranslationError('%s.%s is not `np.random.shuffle(self.%s)`' % (grp['cls'], om, oattr))
+    defs = []
+    for meth, suffix, params in grp['methods']:
+        fn = methods.get(meth)
+        if fn is None:
+            raise TranslationError('%s.%s not found' % (grp['cls'], meth))
+        a = fn.args
+        if fn.decorator_list or a.vararg or a.kwarg or a.kwonlyargs or a.defaults or a.posonlyargs:
+            _err(fn, 'decorated method / parameter list with defaults')
+        if [x.arg for x in a.args] != ['self'] + [pn for pn, _ in params]:
+            _err(fn, 'parameters of %s are %s' % (meth, [x.arg for x in a.args]))
+        t = dict(name=g + suffix, prop=grp['prop'], file=grp['file'], cls=grp['cls'], func=meth, params=params,
+                 attrs=[], grp=grp)
+        ft = FunTrans(mod, t, cls, {}, {})
+        ft.mode_effects_ok = True
+        env = Env(ft)
+        for pn, ty in params:
+            env.vars[_check_ident(fn, pn)] = ty
+        env.vars['st'] = STATE
+
+        def falloff(env2, ft=ft):
+            return ft.ret('void', 'st')
+        body = ft.block(fn.body, env, falloff)
+        kinds = {k for k, _ in ft.rets}
+        body, cty = ft.finish(body, fn)
+        kind = ('void' if kinds == {'void'} else 'mut') if ft.mutating else 'ro'
+        rty = None
+        if kind != 'void':
+            rty = ft.rty
+        grp['done'][meth] = dict(kind=kind, res=ft.effects, rty=rty, params=params, suffix=suffix)
+        defs.append(dict(name=g + suffix, params=[('st', STATE)] + params, body=body, cty=cty, lo=fn.lineno,
+                         hi=fn.end_lineno, what='%s.%s' % (grp['cls'], meth), kind=kind, res=ft.effects))
+    return defs
+
+
+def emit_group(mod, grp, defs):
+    g = grp['name']
+    allf = [(f, COQ_TYPE[ty]) for f, ty in grp['fields']] + list(grp.get('hidden', []))
+    out = ['(* class %s, cellpylib/%s.\n'
+           '   The object is the record src_%s_state of the attributes its methods touch (plus: how many shuffles have\n'
+           '   been drawn from the oracle, and the state of the wrapped rule); a method is a function of the state. *)'
+           % (grp['cls'], mod.fname, g),
+           'Section src_%s.' % g, '  ' + grp['context'],
+           '  Record src_%s_state := src_%s_mk { %s }.' % (g, g, '; '.join('src_%s_get%s : %s' % (g, f, ty) for f, ty in allf))]
+    for i, (f, ty) in enumerate(allf):
+        args = ' '.join('v' if j == i else '(src_%s_get%s st)' % (g, f2) for j, (f2, _) in enumerate(allf))
+        out.append('  Definition src_%s_set%s (st : src_%s_state) (v : %s) : src_%s_state := src_%s_mk %s.'
+                   % (g, f, g, ty, g, g, args))
+    if grp.get('oracle'):
+        oattr = grp['oracle'][1]
+        out.append('  (* %s.%s: np.random.shuffle(self.%s) -- the oracle hook: the i-th shuffle of the object installs\n'
+                   '     `shuffle i order` *)' % (grp['cls'], grp['oracle'][0], oattr))
+        out.append('  Definition src_%s_shuffle (st : src_%s_state) : src_%s_state :=\n'
+                   '    src_%s_set_shuffles (src_%s_set%s st (shuffle (src_%s_get_shuffles st) (src_%s_get%s st))) '
+                   '(S (src_%s_get_shuffles st)).' % (g, g, g, g, g, oattr, g, g, oattr, g))
+    for d in defs:
+        ps = ' '.join('(%s : %s)' % (pn, 'src_%s_state' % g if ty == STATE else COQ_TYPE[ty]) for pn, ty in d['params'])
+        out.append('(* %s, cellpylib/%s\n%s *)' % (d['what'], mod.fname, _quote(mod, d['lo'], d['hi'])))
+        out.append('  Definition src_%s %s : %s :=\n%s.' % (d['name'], ps, d['cty'], _indent(d['body'])))
+    out.append('End src_%s.\n' % g)
+    return '\n'.join(out)
 
 
 # ------------------------------------------------------------------------------------------------ emission
@@ -1061,7 +1951,7 @@ def _quote(mod, lo, hi):
     for i in range(lo, hi + 1):
         ln = mod.lines[i - 1].rstrip()
         ln = ln.replace('(*', '( *').replace('*)', '* )').replace('"', "'")
-        src.append('   | %4d  %s' % (i, ln))
+        src.append('   |  %s' % ln)
     return '\n'.join(src)
 
 
@@ -1076,62 +1966,105 @@ def emit_def(mod, d):
     if d.get('stateful'):
         params.append('(st : S)')
     for p, ty in d['params']:
-        params.append('(%s : %s)' % (p, COQ_TYPE[ty]))
-    head = '(* %s, cellpylib/%s lines %d-%d, sha256 of the file %s\n%s *)' % (
-        d['what'], mod.fname, d['lo'], d['hi'], mod.sha, _quote(mod, d['lo'], d['hi']))
+        params.append('(%s : %s)' % (p, coq_type(ty)))
+    head = '(* %s, cellpylib/%s\n%s *)' % (d['what'], mod.fname, _quote(mod, d['lo'], d['hi']))
     return '%s\nDefinition src_%s %s : %s :=\n%s.\n' % (head, d['name'], ' '.join(params), d['cty'], _indent(d['body']))
 
 
-def build():
+def all_props():
+    out = []
+    for t in TARGETS + GROUPS:
+        if t['prop'] not in out:
+            out.append(t['prop'])
+    return out
+
+
+def gen_path(pid):
+    return os.path.join(GEN, 'GenFuns_%s.v' % pid)
+
+
+HEADER = ('(* GENERATED by harness/translate.py from the Python source of the cellpylib working tree under test.\n'
+          '   The text depends on the translated source alone (no path, hash or line number is recorded here; the\n'
+          '   sha256 of the source files is in GenFuns_%s.status.json), so an unchanged translation is byte-identical\n'
+          '   whatever tree it came from.  Regenerated on every run of the property. Do not edit.  One definition\n'
+          '   src_<name> per translated function; the subset and the rules are in the docstring of harness/translate.py. *)\n'
+          'From Coq Require Import ZArith List Bool.\n'
+          'From CPL Require Import Model.Base Model.Numbering.\n'
+          'From CPL Require Export gen.GenFuns_Prelude.\n'
+          'Import ListNotations.\nLocal Open Scope Z_scope.\n')
+
+
+def build(only=None):
+    """-> ({pid: text}, {pid: status}); `only`: translate the functions of that property alone"""
     repo = repo_dir()
-    status = {'repo': repo, 'functions': {}, 'files': {}, 'errors': {}}
     mods = {}
-    parts = ['(* GENERATED by harness/translate.py from the Python source of the cellpylib working tree under test\n'
-             '   (the path of the tree is not recorded, so that the text depends on the source alone).\n'
-             '   Regenerated on every run. Do not edit. One definition src_<name> per translated function; the subset\n'
-             '   and the translation rules are in the docstring of harness/translate.py. *)', PRELUDE]
-    for t in TARGETS:
+    texts, stats = {}, {}
+    for pid in all_props():
+        if only is not None and pid != only:
+            continue
+        status = {'repo': repo, 'property': pid, 'functions': {}, 'files': {}, 'errors': {}}
+        parts = [HEADER % pid]
+        for t in [t for t in TARGETS if t['prop'] == pid] + [g for g in GROUPS if g['prop'] == pid]:
+            isgrp = 'methods' in t
+            try:
+                if t['file'] not in mods:
+                    mods[t['file']] = ModuleInfo(repo, t['file'])
+                mod = mods[t['file']]
+                status['files'][t['file']] = mod.sha
+                if isgrp:
+                    defs = translate_group(mod, t)
+                    parts.append(emit_group(mod, t, defs))
+                else:
+                    defs = translate_target(mod, t)
+                    for d in defs:
+                        parts.append(emit_def(mod, d))
+                for d in defs:
+                    status['functions']['src_' + d['name']] = {'property': pid, 'file': t['file'],
+                                                               'lines': [d['lo'], d['hi']], 'type': d['cty']}
+            except (TranslationError, SyntaxError, OSError, UnicodeDecodeError, RecursionError) as e:
+                msg = '%s: %s' % (type(e).__name__, e)
+                status['errors'][t['name']] = {'property': pid, 'file': t['file'], 'error': msg}
+                parts.append('(* %s (%s): NOT TRANSLATED, cellpylib/%s\n   %s *)\n' % (
+                    ('class ' + t['cls']) if isgrp else 'src_' + t['name'], pid, t['file'],
+                    re.sub(r'line \d+: ', '', msg).replace('(*', '( *').replace('*)', '* )').replace('"', "'")))
+        texts[pid] = '\n'.join(parts)
+        stats[pid] = status
+    return texts, stats
+
+
+def _write_if_changed(path, text):
+    old = open(path).read() if os.path.exists(path) else None
+    if old == text:
+        return False
+    tmp = path + '.tmp%d' % os.getpid()
+    open(tmp, 'w').write(text)
+    os.replace(tmp, path)
+    return True
+
+
+def main(only=None, quiet=False):
+    """write coq/gen/GenFuns_<Cxx>.v (each ONLY IF its content changed), GenFuns_Prelude.v (constant) and the
+    re-export GenFuns.v (constant); `only`: the files of that property alone.  Returns {pid: status}."""
+    os.makedirs(GEN, exist_ok=True)
+    texts, stats = build(only)
+    _write_if_changed(os.path.join(GEN, 'GenFuns_Prelude.v'), PRELUDE)
+    _write_if_changed(OUT, '(* GENERATED (constant): re-export of the per-property files. Nothing on a property\'s chain imports it. *)\n'
+                      'From CPL Require Export gen.GenFuns_Prelude.\n' +
+                      ''.join('From CPL Require Export gen.GenFuns_%s.\n' % p for p in all_props()))
+    for pid, text in texts.items():
+        st = stats[pid]
+        st['changed'] = _write_if_changed(gen_path(pid), text)
+        st['path'] = gen_path(pid)
         try:
-            if t['file'] not in mods:
-                mods[t['file']] = ModuleInfo(repo, t['file'])
-                status['files'][t['file']] = mods[t['file']].sha
-            mod = mods[t['file']]
-            defs = translate_target(mod, t)
-            for d in defs:
-                parts.append(emit_def(mod, d))
-                status['functions']['src_' + d['name']] = {'property': t['prop'], 'file': t['file'],
-                                                           'lines': [d['lo'], d['hi']], 'type': d['cty']}
-        except (TranslationError, SyntaxError, OSError, UnicodeDecodeError, RecursionError) as e:
-            msg = '%s: %s' % (type(e).__name__, e)
-            status['errors'][t['name']] = {'property': t['prop'], 'file': t['file'], 'error': msg}
-            sha = mods[t['file']].sha if t['file'] in mods and mods[t['file']] else 'unreadable'
-            parts.append('(* src_%s (%s): NOT TRANSLATED, cellpylib/%s sha256 %s\n   %s *)\n' % (
-                t['name'], t['prop'], t['file'], sha,
-                msg.replace('(*', '( *').replace('*)', '* )').replace('"', "'")))
-    return '\n'.join(parts), status
-
-
-def main(out=OUT, quiet=False):
-    text, status = build()
-    os.makedirs(os.path.dirname(out), exist_ok=True)
-    old = open(out).read() if os.path.exists(out) else None
-    changed = old != text
-    if changed:
-        tmp = out + '.tmp%d' % os.getpid()
-        open(tmp, 'w').write(text)
-        os.replace(tmp, out)
-    status['changed'] = changed
-    status['path'] = out
-    try:
-        json.dump(status, open(STATUS, 'w'), indent=1, default=str)
-    except OSError:
-        pass
-    if not quiet:
-        print('translate: %s %s (%d definitions, %d not translated)' % (
-            out, 'rewritten' if changed else 'unchanged', len(status['functions']), len(status['errors'])))
-        for k, v in status['errors'].items():
-            print('translate: %s NOT TRANSLATED: %s' % (k, v['error']))
-    return status
+            json.dump(st, open(os.path.join(GEN, 'GenFuns_%s.status.json' % pid), 'w'), indent=1, default=str)
+        except OSError:
+            pass
+        if not quiet:
+            print('translate: %s %s (%d definitions, %d not translated)' % (
+                st['path'], 'rewritten' if st['changed'] else 'unchanged', len(st['functions']), len(st['errors'])))
+            for k, v in st['errors'].items():
+                print('translate: %s NOT TRANSLATED: %s' % (k, v['error']))
+    return stats
 
 
 # ------------------------------------------------------------------------------------------------ run-time glue
@@ -1142,13 +2075,18 @@ PROP_FUNS = {
             'src_ctrbl_call'],
     'C13': ['src_reversible_call'],
     'C06': ['src_until_fixed_point_timesteps'],
+    'C07': ['src_bits_to_int', 'src_int_to_bits', 'src_binary_rule'],
+    'C18': ['src_binary_derivative', 'src_cyclic_binary_derivative'],
+    'C20': ['src_hopfield_rule'],
+    'C12': ['src_async_call', 'src_async_current_cell_value_1d', 'src_async_current_cell_value_2d'],
 }
 EXTRA_DEPS = {'C15': ['GenProps/C15Tables.v']}      # what <pid>Src.v imports besides the equivalence file
 _state = {}
 
 
 def chain(pid):
-    return ['gen/GenFuns.v', 'GenProps/GenFunsEquiv%s.v' % pid, 'GenProps/%sSrc.v' % pid, 'Properties/%s.v' % pid]
+    return ['gen/GenFuns_%s.v' % pid, 'GenProps/GenFunsEquiv%s.v' % pid, 'GenProps/%sSrc.v' % pid,
+            'Properties/%s.v' % pid]
 
 
 def _stash_dir(pid):
@@ -1156,7 +2094,7 @@ def _stash_dir(pid):
 
 
 def _stash_files(pid):
-    return ['gen/GenFuns.v'] + [r + 'o' for r in chain(pid)]
+    return ['gen/GenFuns_%s.v' % pid] + [r + 'o' for r in chain(pid)]
 
 
 def _mt(rel):
@@ -1235,7 +2173,10 @@ def pre_hook(ctx, pid, upto=4):
             if had_good and not _stash_current(pid):
                 _stash_save(pid)
             st['had_good'] = had_good
-            st['status'] = main(quiet=True)
+            if not os.path.exists(os.path.join(COQ, 'gen/GenFuns_Prelude.vo')):
+                main(only='-', quiet=True)      # writes the constant files only
+                driver.coqc('gen/GenFuns_Prelude.v', timeout=300)
+            st['status'] = main(only=pid, quiet=True)[pid]
         status = st['status']
         mine = {k: v for k, v in status['errors'].items() if v['property'] == pid}
         first = _first_stale(pid, upto)
